@@ -1620,6 +1620,21 @@ def _text_outside_root(repo, ob, failure):
 GENERATORS.insert(0, ("C02.reader.no_text", _text_outside_root))
 
 
+def _cdata_outside_root(repo, ob, failure):
+    """a CDATA section outside the root element never reaches the output: such input is not XML and is an error"""
+    for doc in ['<svg><rect wh="5"/></svg><![CDATA[x]]>', '<![CDATA[x]]><svg><rect wh="5"/></svg>']:
+        r = run_svgdx(repo, doc, args=("--no-auto-styles",))
+        if r["rc"] == 0:
+            _el, e = _parse_xml(r["out"])
+            if e:
+                return {"input": doc, "args": ["--no-auto-styles"], "observed": "transform succeeds and an XML parser rejects the output (%s): %r" % (e, r["out"].strip()[-40:]),
+                        "expected": "an error (character data outside the root element)"}
+    return None
+
+
+GENERATORS.insert(0, ("C02.reader.no_cdata", _cdata_outside_root))
+
+
 def _group_attrs_once(repo, ob, failure):
     """an expression in a group attribute is evaluated once: random() advances once per occurrence"""
     import re as _re
